@@ -4,8 +4,9 @@ import OSq.Proofs.Main
 
 /-
   OSq.Proofs.DecomposeBand3 — part 3: **non-vacuity** of the tolerance-level theorems of `OSq.Proofs.DecomposeBand2`
-  on runs whose result is accepted but NOT exact, and the **counter-example** showing that the unitarity hypothesis
-  on the accepted answers cannot be dropped (a finding about `check_gate_replacement` + `MatrixGate`).
+  on runs whose result is accepted but NOT exact, and the theorem that the **defect of the un-normalised phase is gone**:
+  a replacement / a gate whose matrix is a mere multiple `c·m`, `c ≠ 1`, of the other is REJECTED by
+  `check_gate_replacement`, `compare_gates` and `Gate.__eq__`.
   Helper names live in `namespace OSq.DBand`.
 
   A. an accepted, inexact decomposer
@@ -18,17 +19,25 @@ import OSq.Proofs.Main
   B. instances (register of 2 qubits; `Rz(θ₁)` on qubit 0, a measurement of qubit 0, `Rz(θ₂)` on qubit 1)
   * `ex_shift_run`, `ex_shift_band`   `decompose atol (dShift atol) …` completes with both angles shifted, and
                                 `decompose_ok_band_syntactic` gives `‖circOp out o − z•circOp c o‖ ≤ 2·κ(1, atol)` for all `o`
-                                (strictly positive bound);
+                                (strictly positive bound);  `ex_shift_band_nohyp`: `decompose_ok_band_nohyp` on the same run;
   * `ex_fail_run` + example     `decompose_fail_band` on a decomposer that raises at the second gate: `G = 1`
   * `exN_shift_run` + example   `replace_ok_band` with a user rule for the named gate `Rz`: `G = 1` (the anonymous gate only
                                 passes its self-check)
-  C. the unitarity hypothesis cannot be dropped
-  * `equivPhase_accepts_scalar` `a = z•b`, `0 < ‖z‖ ≤ 1`, an entry of `a` of modulus `≥ atol` ⇒ `equivPhase atol a b`
-  * `nonunitary_accepted`       for EVERY well-formed unitary matrix gate `g = MatrixGate(m, ops)` (`atol²·2^k ≤ 1`) the answer
-                                `[MatrixGate(2·m, ops)]` is accepted, `decompose` completes, the operator of the circuit is
-                                doubled, and `‖circOp out o − z•circOp c o‖ ≥ 1` for every unit `z`.
-                                Reproduced on /repo: `check_gate_replacement(CNOT(0,1), [MatrixGate(2*M_CNOT, [0,1])])` returns
-                                without raising and `circuit.decompose(…)` doubles `get_circuit_matrix`.
+  C. scalar multiples are rejected
+  * `equivPhase_rejects_scalar(')`  `b = γ•a`, an entry of `a` of modulus `≥ μ`, `atol < μ·(|‖γ‖ − 1| − 1e-5·‖γ‖)` ⇒
+                                `equivPhase atol a b = false` (resp. `equivPhase atol b a = false` for `… − 1e-5`)
+  * `gateOp_matrix_smul`, `local_scalar_pair`, `matrix_gate_big`   `MatrixGate(s·m)` has operator `s•`; local matrices;
+                                a unitary matrix gate on `k` qubits has an operator entry `≥ μ` when `μ²·2^k ≤ 1`
+  * `scalar_multiple_rejected_big`  general complex scalar `s`, any gate with an operator entry `≥ μ`:
+                                `check_gate_replacement` ⇒ `ValueError`, `decompose` stops with it on an unchanged circuit,
+                                `compare_gates` and `Gate.__eq__` ⇒ `False` in both orders
+  * `scalar_multiple_rejected`  the same for a well-formed UNITARY `MatrixGate(m, ops)` and a real `c > 0`:
+                                `atol < μ·(|c − 1| − 1e-5·max(c,1))`, `μ²·2^k ≤ 1`
+  * `scalar_multiple_rejected_id4`  `c = 2`, `c = 1/2`, `c = 1000` on the 4×4 identity matrix gate, every `atol ≤ 1/5`;
+                                examples: the factor `3i`; the factor `1` is accepted.
+  (The former theorem `nonunitary_accepted` — `[MatrixGate(2·m, ops)]` accepted for every unitary `m`, the formal witness
+  of the defect of `are_matrices_equivalent_up_to_global_phase` before its repair — is false for the repaired code and
+  has been removed together with `equivPhase_accepts_scalar`.)
 -/
 
 open Matrix
@@ -203,11 +212,29 @@ theorem ex_shift_band (atol : ℝ) (h0 : 0 < atol) (h1 : atol ≤ 3 / 8) (θ₁ 
   rw [hcount] at this
   exact_mod_cast this
 
+/-- **`decompose_ok_band_nohyp` instantiated** on the same run: no hypothesis on the decomposer is discharged, the
+    bound is the product form `(1 + κ_L(1, atol))² − 1` -/
+theorem ex_shift_band_nohyp (atol : ℝ) (h0 : 0 < atol) (h1 : atol ≤ 3 / 8) (θ₁ θ₂ : ℝ) :
+    ∃ z : ℂ, ‖z‖ = 1 ∧ ∀ o,
+      ‖circOp 2 (exOut atol θ₁ θ₂) o - z • circOp 2 (exCirc θ₁ θ₂).stmts o‖ ≤ (1 + kappaL 1 atol) ^ 2 - 1 := by
+  have := decompose_ok_band_nohyp atol h0 (dShift atol) (exCirc θ₁ θ₂) (exOut atol θ₁ θ₂) 1
+    (exCirc_wf θ₁ θ₂)
+    (by
+      intro g nm hm
+      rcases exCirc_gates θ₁ θ₂ g nm hm with rfl | rfl <;> exact ez_unit)
+    (by
+      intro g nm hm
+      rcases exCirc_gates θ₁ θ₂ g nm hm with rfl | rfl <;> simp [Gate.operands])
+    (ex_shift_run atol h0 h1 θ₁ θ₂)
+  have hcount : gateCount (exCirc θ₁ θ₂).stmts = 2 := by
+    simp [gateCount, exCirc, List.countP_cons, Stmt.isGate]
+  rwa [hcount] at this
+
 /-- … the bound is strictly positive, and the crisp theorem `decompose_sem` does not apply: its hypothesis `ExactRepl`
     fails for the accepted replacement of the very first gate -/
 example (atol : ℝ) (h0 : 0 < atol) : 0 < 2 * kappa 1 atol := by
   unfold kappa
-  have := EqBands.unitSlack_nonneg (2 ^ 1) h0.le
+  have := rtol_real_nonneg
   positivity
 
 example (atol : ℝ) (h0 : 0 < atol) (h1 : atol ≤ 3 / 8) (θ₁ : ℝ) :
@@ -321,130 +348,266 @@ example (atol : ℝ) (h0 : 0 < atol) (h1 : atol ≤ 3 / 8) (θ₁ θ₂ : ℝ) :
   · cases hnm
 
 
-/-! ## C. The unitarity hypothesis on the accepted answers cannot be dropped -/
+/-! ## C. A matrix that is a mere multiple of the other is rejected (the defect of the un-normalised phase is gone) -/
 
-/-- `equivPhase` accepts `a = z•b` for ANY non-zero `z` of modulus `≤ 1` (pivot of `a` at least `atol`) -/
-theorem equivPhase_accepts_scalar (atol : ℝ) (h0 : 0 < atol) (N : Nat) (hN : 0 < N) (a b : Mat ℝ) (ha : a.n = N)
-    (hb : b.n = N) (z : ℂ) (hz : z ≠ 0) (hz1 : ‖z‖ ≤ 1) (hab : a.toMatrixOn N = z • b.toMatrixOn N)
-    (hbig : ∃ i j : Fin N, atol ≤ ‖a.toMatrixOn N i j‖) : equivPhase atol a b = true := by
-  have hflat : ∀ k, k < N * N → a.flat k = z * b.flat k := by
-    intro k hk
-    rw [Mat.flat_eq_get a ha, Mat.flat_eq_get b hb]
-    have hi : k / N < N := (Nat.div_lt_iff_lt_mul hN).mpr hk
-    have hj : k % N < N := Nat.mod_lt _ hN
-    have := congrFun (congrFun hab ⟨k / N, hi⟩) ⟨k % N, hj⟩
-    simpa [Mat.toMatrixOn_apply] using this
-  have hl := EqBands.pivot_lt hN a ha
-  have hpa : atol ≤ ‖a.flat (argmaxAbs a)‖ := by
+/-- `equivPhase` REJECTS `b = γ•a` as soon as `a` has an entry of modulus `≥ μ` with `atol < μ·(|‖γ‖ − 1| − 1e-5·‖γ‖)`:
+    for every unit `z`, `|a_k − z·γ·a_k| ≥ |a_k|·|1 − ‖γ‖|`.  (Before the measured phase was normalised, `b = γ•a` was
+    ACCEPTED for every `γ ≠ 0`.) -/
+theorem equivPhase_rejects_scalar (atol μ : ℝ) (h0 : 0 < atol) (N : Nat) (a b : Mat ℝ) (ha : a.n = N)
+    (hb : b.n = N) (γ : ℂ) (hab : b.toMatrixOn N = γ • a.toMatrixOn N)
+    (hbig : ∃ i j : Fin N, μ ≤ ‖a.toMatrixOn N i j‖) (hμ : 0 ≤ μ)
+    (hrej : atol < μ * (|‖γ‖ - 1| - 1e-5 * ‖γ‖)) : equivPhase atol a b = false := by
+  cases h : equivPhase atol a b with
+  | false => rfl
+  | true =>
+    exfalso
+    obtain ⟨z, hz, H⟩ := equivPhase_sound_get atol h0 N a b ha hb h
     obtain ⟨i, j, hij⟩ := hbig
-    rw [Mat.toMatrixOn_apply, Mat.get_eq_flat a ha] at hij
-    exact le_trans hij (EqBands.pivot_max a ha _ (Mat.index_lt i.isLt j.isLt))
-  have hzpos : 0 < ‖z‖ := norm_pos_iff.mpr hz
-  have hpb : atol ≤ ‖b.flat (argmaxAbs a)‖ := by
-    have e := hflat _ hl
-    rw [e, norm_mul] at hpa
-    have : ‖z‖ * ‖b.flat (argmaxAbs a)‖ ≤ 1 * ‖b.flat (argmaxAbs a)‖ :=
-      mul_le_mul_of_nonneg_right hz1 (norm_nonneg _)
-    linarith
-  have hb0 : b.flat (argmaxAbs a) ≠ 0 := by
-    intro h; rw [h, norm_zero] at hpb; linarith
-  rw [equivPhase_iff]
-  refine ⟨not_lt.mpr hpa, not_lt.mpr hpb, ?_⟩
-  intro k hk
-  rw [ha] at hk
-  have e : a.flat k - a.flat (argmaxAbs a) / b.flat (argmaxAbs a) * b.flat k = 0 := by
-    rw [hflat k hk, hflat _ hl]
-    field_simp
-    ring
-  rw [e, norm_zero]
-  have := mul_nonneg rtol_real_nonneg (norm_nonneg (a.flat (argmaxAbs a) / b.flat (argmaxAbs a) * b.flat k))
-  linarith
+    have h1 := H i.val j.val i.isLt j.isLt
+    have hbij : (b.get i.val j.val).toC = γ * (a.get i.val j.val).toC := by
+      have := congrFun (congrFun hab i) j
+      simpa [Mat.toMatrixOn_apply] using this
+    rw [Mat.toMatrixOn_apply] at hij
+    rw [hbij] at h1
+    have e : (a.get i.val j.val).toC - z * (γ * (a.get i.val j.val).toC)
+        = (1 - z * γ) * (a.get i.val j.val).toC := by ring
+    rw [e, norm_mul, norm_mul, norm_mul, hz, one_mul] at h1
+    have h2 := abs_norm_sub_norm_le (1 : ℂ) (z * γ)
+    rw [norm_one, norm_mul, hz, one_mul, abs_sub_comm] at h2
+    set t := ‖(a.get i.val j.val).toC‖
+    have ht : 0 ≤ t := norm_nonneg _
+    have h3 : |‖γ‖ - 1| * t ≤ ‖1 - z * γ‖ * t := mul_le_mul_of_nonneg_right h2 ht
+    have hfac : 0 < |‖γ‖ - 1| - 1e-5 * ‖γ‖ := by
+      by_contra hcon
+      have hcon := not_lt.mp hcon
+      have : μ * (|‖γ‖ - 1| - 1e-5 * ‖γ‖) ≤ 0 := mul_nonpos_of_nonneg_of_nonpos hμ hcon
+      linarith
+    have h4 : μ * (|‖γ‖ - 1| - 1e-5 * ‖γ‖) ≤ t * (|‖γ‖ - 1| - 1e-5 * ‖γ‖) :=
+      mul_le_mul_of_nonneg_right hij hfac.le
+    nlinarith
+
+/-- the other order: `a' = γ•a` against `a` is rejected as soon as `atol < μ·(|‖γ‖ − 1| − 1e-5)` -/
+theorem equivPhase_rejects_scalar' (atol μ : ℝ) (h0 : 0 < atol) (N : Nat) (a b : Mat ℝ) (ha : a.n = N)
+    (hb : b.n = N) (γ : ℂ) (hab : b.toMatrixOn N = γ • a.toMatrixOn N)
+    (hbig : ∃ i j : Fin N, μ ≤ ‖a.toMatrixOn N i j‖) (hμ : 0 ≤ μ)
+    (hrej : atol < μ * (|‖γ‖ - 1| - 1e-5)) : equivPhase atol b a = false := by
+  cases h : equivPhase atol b a with
+  | false => rfl
+  | true =>
+    exfalso
+    obtain ⟨z, hz, H⟩ := equivPhase_sound_get atol h0 N b a hb ha h
+    obtain ⟨i, j, hij⟩ := hbig
+    have h1 := H i.val j.val i.isLt j.isLt
+    have hbij : (b.get i.val j.val).toC = γ * (a.get i.val j.val).toC := by
+      have := congrFun (congrFun hab i) j
+      simpa [Mat.toMatrixOn_apply] using this
+    rw [Mat.toMatrixOn_apply] at hij
+    rw [hbij] at h1
+    have e : γ * (a.get i.val j.val).toC - z * (a.get i.val j.val).toC
+        = (γ - z) * (a.get i.val j.val).toC := by ring
+    rw [e, norm_mul, norm_mul, hz, one_mul] at h1
+    have h2 := abs_norm_sub_norm_le γ z
+    rw [hz] at h2
+    set t := ‖(a.get i.val j.val).toC‖
+    have ht : 0 ≤ t := norm_nonneg _
+    have h3 : |‖γ‖ - 1| * t ≤ ‖γ - z‖ * t := mul_le_mul_of_nonneg_right h2 ht
+    have hfac : 0 < |‖γ‖ - 1| - 1e-5 := by
+      by_contra hcon
+      have hcon := not_lt.mp hcon
+      have : μ * (|‖γ‖ - 1| - 1e-5) ≤ 0 := mul_nonpos_of_nonneg_of_nonpos hμ hcon
+      linarith
+    have h4 : μ * (|‖γ‖ - 1| - 1e-5) ≤ t * (|‖γ‖ - 1| - 1e-5) := mul_le_mul_of_nonneg_right hij hfac.le
+    nlinarith
 
 theorem toMatrixOn_smul' {N : Nat} (z : Cx ℝ) (a : Mat ℝ) (ha : a.n = N) :
     (Mat.smul z a).toMatrixOn N = z.toC • a.toMatrixOn N := by
   subst ha; exact Mat.toMatrixOn_smul z a
 
-/-- **Finding (C06).**  `MatrixGate` does not require a unitary matrix, and `check_gate_replacement` compares up to
-    an arbitrary complex factor.  For every well-formed unitary matrix gate `g = MatrixGate(m, ops)` the answer
-    `[MatrixGate(2·m, ops)]` is ACCEPTED (`atol²·2^k ≤ 1`), the pass completes, and the operator of the circuit is
-    doubled: no unit phase brings it closer than `1` to the original.  So `decompose_ok_band` is false without the
-    hypothesis that accepted answers are unitary — "every replacement is checked" does not by itself make a completed
-    pass operation-preserving when the decomposer may emit `MatrixGate`s. -/
-theorem nonunitary_accepted (atol : ℝ) (h0 : 0 < atol) (n : Nat) (m : Mat ℝ) (ops : List Int)
-    (hwf : GateWF n (.matrix m ops)) (hdim : m.n = 2 ^ ops.length) (hU : (Gate.matrix m ops).Unitary)
-    (hat : atol ^ 2 * (2 ^ ops.length : ℕ) ≤ 1) :
-    checkGateReplacement atol (.matrix m ops) [.matrix (Mat.smul ⟨2, 0⟩ m) ops] = none ∧
-    decompose atol (fun _ _ => .ok [(.matrix (Mat.smul ⟨2, 0⟩ m) ops, none)]) [.gate (.matrix m ops) none]
-      = ([.gate (.matrix (Mat.smul ⟨2, 0⟩ m) ops) none], none) ∧
-    (∀ o, circOp n [.gate (.matrix (Mat.smul ⟨2, 0⟩ m) ops) none] o
-      = (2 : ℂ) • circOp n [.gate (.matrix m ops) none] o) ∧
-    ∀ z : ℂ, ‖z‖ = 1 → ∀ o,
-      1 ≤ ‖circOp n [.gate (.matrix (Mat.smul ⟨2, 0⟩ m) ops) none] o - z • circOp n [.gate (.matrix m ops) none] o‖ := by
+/-- the operator of `MatrixGate(s·m, ops)` is `s` times the operator of `MatrixGate(m, ops)` -/
+theorem gateOp_matrix_smul (n : Nat) (s : Cx ℝ) (m : Mat ℝ) (ops : List Int) (hdim : m.n = 2 ^ ops.length) :
+    gateOp n (.matrix (Mat.smul s m) ops) = s.toC • gateOp n (.matrix m ops) := by
+  rw [gateOp_matrix_eq_lift, gateOp_matrix_eq_lift, toMatrixOn_smul' _ _ hdim, lift_smul]
+
+/-- on any admissible enumeration `idx` of qubits the two local matrices differ by the factor `s`, and the local matrix
+    of the unscaled gate inherits a large entry from the register operator -/
+theorem local_scalar_pair {n : Nat} (idx : List Int) (hnd : idx.Nodup) (hreg : ∀ q ∈ idx, 0 ≤ q ∧ q < (n : Int))
+    (s : Cx ℝ) (m : Mat ℝ) (ops : List Int) (hdim : m.n = 2 ^ ops.length) {A B : Mat ℝ}
+    (hA : localMatrix idx [Gate.matrix m ops] = .ok A) (hB : localMatrix idx [Gate.matrix (Mat.smul s m) ops] = .ok B)
+    {μ : ℝ} (hμ : 0 < μ) (hbig : ∃ r c, μ ≤ ‖gateOp n (.matrix m ops) r c‖) :
+    B.toMatrixOn (2 ^ idx.length) = s.toC • A.toMatrixOn (2 ^ idx.length) ∧
+      ∃ i j : Fin (2 ^ idx.length), μ ≤ ‖A.toMatrixOn (2 ^ idx.length) i j‖ := by
+  have hgA := gateOp_eq_lift_localMatrix (n := n) idx hnd hreg hA
+  have hgB := gateOp_eq_lift_localMatrix (n := n) idx hnd hreg hB
+  have hndN := nodup_map_toNat (n := n) idx hnd hreg
+  have hltN := map_toNat_lt (n := n) idx hreg
+  constructor
+  · apply lift_injective (n := n) _ (List.length_map _) hndN hltN
+    rw [lift_smul, ← hgA, ← hgB, gateOp_matrix_smul n s m ops hdim]
+  · rw [hgA] at hbig
+    exact EqBands.local_big_of_lift _ _ hμ _ hbig
+
+/-- **The defect is gone (C06/C16).**  For a well-formed matrix gate `g = MatrixGate(m, ops)` whose operator has an entry
+    of modulus `≥ μ > 0` and a complex scalar `s` of modulus `ρ = ‖s‖` with `atol < μ·(|ρ − 1| − 1e-5·max(ρ, 1))`:
+    the replacement `[MatrixGate(s·m, ops)]` is REJECTED by `check_gate_replacement` (`ValueError`), the decompose pass
+    with a decomposer answering it stops with that error and leaves the circuit unchanged, and `compare_gates` /
+    `Gate.__eq__` answer `False` in both orders.  (`nonunitary_accepted`, the formal witness of the defect of the
+    un-normalised phase — `[MatrixGate(2·m, ops)]` accepted for every unitary `m` — is now false and has been removed.) -/
+theorem scalar_multiple_rejected_big (atol μ : ℝ) (h0 : 0 < atol) (n : Nat) (m : Mat ℝ) (ops : List Int) (s : Cx ℝ)
+    (hwf : GateWF n (.matrix m ops)) (hdim : m.n = 2 ^ ops.length) (hμ : 0 < μ)
+    (hbig : ∃ r c, μ ≤ ‖gateOp n (.matrix m ops) r c‖)
+    (hrej : atol < μ * (|‖s.toC‖ - 1| - 1e-5 * ‖s.toC‖))
+    (hrej' : atol < μ * (|‖s.toC‖ - 1| - 1e-5)) :
+    checkGateReplacement atol (.matrix m ops) [.matrix (Mat.smul s m) ops] = some .value ∧
+    decompose atol (fun _ _ => .ok [(.matrix (Mat.smul s m) ops, none)]) [.gate (.matrix m ops) none]
+      = ([.gate (.matrix m ops) none], some .value) ∧
+    compareGates atol (.matrix m ops) (.matrix (Mat.smul s m) ops) = .ok false ∧
+    compareGates atol (.matrix (Mat.smul s m) ops) (.matrix m ops) = .ok false ∧
+    gateEq atol (.matrix m ops) (.matrix (Mat.smul s m) ops) = .ok false ∧
+    gateEq atol (.matrix (Mat.smul s m) ops) (.matrix m ops) = .ok false := by
   set g : Gate ℝ := .matrix m ops with hg
-  set g2 : Gate ℝ := .matrix (Mat.smul ⟨2, 0⟩ m) ops with hg2
-  have hwf2 : GateWF n g2 := hwf
-  -- the operator doubles
-  have hop : gateOp n g2 = (2 : ℂ) • gateOp n g := by
-    rw [hg, hg2, gateOp_matrix_eq_lift, gateOp_matrix_eq_lift, toMatrixOn_smul' _ _ hdim, lift_smul]
-    congr 1
-  have hUg : gateOp n g ∈ Matrix.unitaryGroup (Fin (2 ^ n)) ℂ := gateOp_unitary n g hwf hU
-  -- the check accepts
-  obtain ⟨A, hA⟩ := (localMatrix_single_ok_iff g.operands g).mpr ⟨fun q hq => hq, hdim⟩
-  obtain ⟨B, hB⟩ := (localMatrix_single_ok_iff g.operands g2).mpr
-    ⟨fun q hq => hq, by show (Mat.smul _ m).n = _; exact hdim⟩
-  have hndN := nodup_map_toNat (n := n) g.operands hwf.1 hwf.2
-  have hltN := map_toNat_lt (n := n) g.operands hwf.2
-  have hgA := gateOp_eq_lift_local hwf hA
-  have hgB : gateOp n g2 = lift (g.operands.map Int.toNat) (List.length_map _) (B.toMatrixOn (2 ^ g.operands.length)) := by
-    have := localMatrix_lift (n := n) g.operands hwf.1 hwf.2 hB []
-    rw [this]; simp [gateStmts]
-  have hAB : A.toMatrixOn (2 ^ g.operands.length) = (2⁻¹ : ℂ) • B.toMatrixOn (2 ^ g.operands.length) := by
-    apply lift_injective (n := n) _ (List.length_map _) hndN hltN
-    rw [lift_smul, ← hgA, ← hgB, hop, smul_smul]
-    norm_num
-  have hUA : A.toMatrixOn (2 ^ g.operands.length) ∈ Matrix.unitaryGroup (Fin (2 ^ g.operands.length)) ℂ := by
-    apply EqBands.unitary_of_lift _ _ hndN hltN
-    rw [← hgA]; exact hUg
-  have hacc : equivPhase atol A B = true :=
-    equivPhase_accepts_scalar atol h0 _ (Nat.two_pow_pos _) A B (localMatrix_dim hA).1 (localMatrix_dim hB).1
-      2⁻¹ (by norm_num) (by rw [norm_inv]; norm_num) hAB
-      (exists_big_of_unitary (Nat.two_pow_pos _) hUA atol hat)
-  have hcheck : checkGateReplacement atol g [g2] = none := by
+  set g2 : Gate ℝ := .matrix (Mat.smul s m) ops with hg2
+  have hd2 : g2.dimOk := by show (Mat.smul _ m).n = _; exact hdim
+  -- the check
+  have hcheck : checkGateReplacement atol g [g2] = some .value := by
+    obtain ⟨A, hA⟩ := (localMatrix_single_ok_iff g.operands g).mpr ⟨fun q hq => hq, hdim⟩
+    obtain ⟨B, hB⟩ := (localMatrix_single_ok_iff g.operands g2).mpr ⟨fun q hq => hq, hd2⟩
+    obtain ⟨hAB, hbigA⟩ := local_scalar_pair (n := n) g.operands hwf.1 hwf.2 s m ops hdim hA hB hμ hbig
+    have hrejE := equivPhase_rejects_scalar atol μ h0 _ A B (localMatrix_dim hA).1 (localMatrix_dim hB).1
+      s.toC hAB hbigA hμ.le hrej
     rw [checkGateReplacement_local atol g [g2] (by
-      intro r hr q hq; simp only [List.mem_singleton] at hr; subst hr; exact hq) hA hB, hacc]
+      intro r hr q hq; simp only [List.mem_singleton] at hr; subst hr; exact hq) hA hB, hrejE]
     rfl
-  have hnorm : ‖gateOp n g‖ = 1 := CStarRing.norm_of_mem_unitary hUg
-  refine ⟨hcheck, ?_, ?_, ?_⟩
-  · simp [decompose, decomposeLoop, hcheck, GStmt.toStmt]
-  · intro o; simp [hop]
-  · intro z hz o
-    simp only [circOp_gate, circOp_nil, Matrix.one_mul]
-    rw [hop, ← sub_smul, norm_smul, hnorm, mul_one]
-    have := norm_sub_norm_le (2 : ℂ) z
-    rw [hz] at this
-    norm_num at this
+  -- the comparisons, on the union of the operands
+  have hr : g.inReg n := hwf.2
+  have hr2 : g2.inReg n := hwf.2
+  have hnd := dedup_nodup (g.operands ++ g2.operands)
+  have hreg := dedup_union_reg hr hr2
+  have hnd' := dedup_nodup (g2.operands ++ g.operands)
+  have hreg' := dedup_union_reg hr2 hr
+  have hcmp : compareGates atol g g2 = .ok false := by
+    obtain ⟨A, hA⟩ := (localMatrix_single_ok_iff (dedup (g.operands ++ g2.operands)) g).mpr
+      ⟨fun q hq => (mem_dedup _ q).mpr (List.mem_append_left _ hq), hdim⟩
+    obtain ⟨B, hB⟩ := (localMatrix_single_ok_iff (dedup (g.operands ++ g2.operands)) g2).mpr
+      ⟨fun q hq => (mem_dedup _ q).mpr (List.mem_append_right _ hq), hd2⟩
+    obtain ⟨hAB, hbigA⟩ := local_scalar_pair (n := n) _ hnd hreg s m ops hdim hA hB hμ hbig
+    rw [compareGates_eq_with, compareGatesWith_eq atol _ g g2 hA hB,
+      equivPhase_rejects_scalar atol μ h0 _ A B (localMatrix_dim hA).1 (localMatrix_dim hB).1 s.toC hAB hbigA
+        hμ.le hrej]
+  have hcmp' : compareGates atol g2 g = .ok false := by
+    obtain ⟨A, hA⟩ := (localMatrix_single_ok_iff (dedup (g2.operands ++ g.operands)) g).mpr
+      ⟨fun q hq => (mem_dedup _ q).mpr (List.mem_append_right _ hq), hdim⟩
+    obtain ⟨B, hB⟩ := (localMatrix_single_ok_iff (dedup (g2.operands ++ g.operands)) g2).mpr
+      ⟨fun q hq => (mem_dedup _ q).mpr (List.mem_append_left _ hq), hd2⟩
+    obtain ⟨hAB, hbigA⟩ := local_scalar_pair (n := n) _ hnd' hreg' s m ops hdim hA hB hμ hbig
+    rw [compareGates_eq_with, compareGatesWith_eq atol _ g2 g hB hA,
+      equivPhase_rejects_scalar' atol μ h0 _ A B (localMatrix_dim hA).1 (localMatrix_dim hB).1 s.toC hAB hbigA
+        hμ.le hrej']
+  refine ⟨hcheck, ?_, hcmp, hcmp', hcmp, hcmp'⟩
+  simp [decompose, decomposeLoop, hcheck]
+
+/-- a unitary matrix gate has an operator entry of modulus `≥ μ` as soon as `μ²·2^k ≤ 1` (`k` operands) -/
+theorem matrix_gate_big (n : Nat) (m : Mat ℝ) (ops : List Int) (hwf : GateWF n (.matrix m ops))
+    (hU : (Gate.matrix m ops).Unitary) (μ : ℝ) (hμ : μ ^ 2 * (2 ^ ops.length : ℕ) ≤ 1) :
+    ∃ r c, μ ≤ ‖gateOp n (.matrix m ops) r c‖ := by
+  obtain ⟨i, j, hij⟩ := exists_big_of_unitary (Nat.two_pow_pos _) hU μ hμ
+  have hnd := nodup_map_toNat (n := n) ops hwf.1 hwf.2
+  have hlt := map_toNat_lt (n := n) ops hwf.2
+  have hndr : (ops.map Int.toNat).reverse.Nodup := List.nodup_reverse.mpr hnd
+  have hltr : ∀ q ∈ (ops.map Int.toNat).reverse, q < n := fun q hq => hlt q (List.mem_reverse.mp hq)
+  have hk : (ops.map Int.toNat).reverse.length = ops.length := by simp
+  rw [gateOp_matrix_eq_lift]
+  refine ⟨ketAt _ hltr i, ketAt _ hltr j, ?_⟩
+  rw [lift_ketAt _ hk hndr hltr]
+  exact hij
+
+/-- **`scalar_multiple_rejected`**: for a well-formed UNITARY matrix gate `MatrixGate(m, ops)` on `k` qubits, a real
+    `c > 0` and any `μ > 0` with `μ²·2^k ≤ 1` (e.g. `μ = 2^{-k/2}`, the guaranteed size of the largest entry):
+    if `atol < μ·(|c − 1| − 1e-5·max(c, 1))`, the replacement `[MatrixGate(c·m, ops)]` is rejected with `ValueError`, the
+    decompose pass stops with that error on an unchanged circuit, and `compare_gates` / `Gate.__eq__` of the two gates
+    are `False` (both orders).  For the library's `ATOL = 1e-7` and a two-qubit gate (`μ = 1/2`) this covers every
+    `c` with `|c − 1| > 1.001e-5·max(c,1) + 2e-7`: exactly the relative tolerance `rtol = 1e-5` of `np.allclose`. -/
+theorem scalar_multiple_rejected (atol μ c : ℝ) (h0 : 0 < atol) (n : Nat) (m : Mat ℝ) (ops : List Int)
+    (hwf : GateWF n (.matrix m ops)) (hdim : m.n = 2 ^ ops.length) (hU : (Gate.matrix m ops).Unitary)
+    (hc : 0 < c) (hμ : 0 < μ) (hμ2 : μ ^ 2 * (2 ^ ops.length : ℕ) ≤ 1)
+    (hrej : atol < μ * (|c - 1| - 1e-5 * max c 1)) :
+    checkGateReplacement atol (.matrix m ops) [.matrix (Mat.smul ⟨c, 0⟩ m) ops] = some .value ∧
+    decompose atol (fun _ _ => .ok [(.matrix (Mat.smul ⟨c, 0⟩ m) ops, none)]) [.gate (.matrix m ops) none]
+      = ([.gate (.matrix m ops) none], some .value) ∧
+    compareGates atol (.matrix m ops) (.matrix (Mat.smul ⟨c, 0⟩ m) ops) = .ok false ∧
+    compareGates atol (.matrix (Mat.smul ⟨c, 0⟩ m) ops) (.matrix m ops) = .ok false ∧
+    gateEq atol (.matrix m ops) (.matrix (Mat.smul ⟨c, 0⟩ m) ops) = .ok false ∧
+    gateEq atol (.matrix (Mat.smul ⟨c, 0⟩ m) ops) (.matrix m ops) = .ok false := by
+  have hnorm : ‖(⟨c, 0⟩ : Cx ℝ).toC‖ = c := by
+    have : (⟨c, 0⟩ : Cx ℝ).toC = ((c : ℝ) : ℂ) := by apply Complex.ext <;> simp
+    rw [this, Complex.norm_real, Real.norm_eq_abs, abs_of_pos hc]
+  have hr : (0:ℝ) ≤ 1e-5 := rtol_real_nonneg
+  have h1 : 1e-5 * c ≤ 1e-5 * max c 1 := mul_le_mul_of_nonneg_left (le_max_left _ _) hr
+  have h2 : 1e-5 * 1 ≤ 1e-5 * max c 1 := mul_le_mul_of_nonneg_left (le_max_right _ _) hr
+  apply scalar_multiple_rejected_big atol μ h0 n m ops ⟨c, 0⟩ hwf hdim hμ
+    (matrix_gate_big n m ops hwf hU μ hμ2)
+  · rw [hnorm]
+    have := mul_le_mul_of_nonneg_left (sub_le_sub_left h1 |c - 1|) hμ.le
+    linarith
+  · rw [hnorm]
+    have := mul_le_mul_of_nonneg_left (sub_le_sub_left h2 |c - 1|) hμ.le
     linarith
 
-/-- the finding on a concrete gate: the 4×4 identity as a `MatrixGate` on qubits `(0, 1)` of a 2-qubit register -/
+/-- the 4×4 identity as a `MatrixGate` on qubits `(0, 1)` of a 2-qubit register is well formed and unitary -/
+theorem id4_wf : GateWF 2 (.matrix (Mat.identity 4) [0, 1]) :=
+  ⟨by simp [Gate.operands], by
+    intro q hq; simp only [Gate.operands, List.mem_cons, List.not_mem_nil, or_false] at hq
+    rcases hq with rfl | rfl <;> omega⟩
+
+theorem id4_unitary : (Gate.matrix (Mat.identity 4 : Mat ℝ) [0, 1]).Unitary := by
+  show (Mat.identity 4 : Mat ℝ).toMatrixOn 4 ∈ Matrix.unitaryGroup (Fin 4) ℂ
+  rw [Mat.toMatrixOn_identity]
+  exact one_mem _
+
+/-- **the concrete instances**: `c = 2`, `c = 1/2`, `c = 1000` on the 4×4 identity matrix gate, every `atol ≤ 1/5`
+    (in particular `ATOL = 1e-7`): `MatrixGate(c·I₄)` is rejected as a replacement for `MatrixGate(I₄)` and is a
+    different gate for `compare_gates` and `==`. -/
+theorem scalar_multiple_rejected_id4 (atol c : ℝ) (h0 : 0 < atol) (h1 : atol ≤ 1 / 5)
+    (hc : c = 2 ∨ c = 1 / 2 ∨ c = 1000) :
+    checkGateReplacement atol (.matrix (Mat.identity 4) [0, 1]) [.matrix (Mat.smul ⟨c, 0⟩ (Mat.identity 4)) [0, 1]]
+      = some .value ∧
+    compareGates atol (.matrix (Mat.identity 4) [0, 1]) (.matrix (Mat.smul ⟨c, 0⟩ (Mat.identity 4)) [0, 1]) = .ok false ∧
+    gateEq atol (.matrix (Mat.identity 4) [0, 1]) (.matrix (Mat.smul ⟨c, 0⟩ (Mat.identity 4)) [0, 1]) = .ok false := by
+  have hcpos : 0 < c := by rcases hc with rfl | rfl | rfl <;> norm_num
+  have := scalar_multiple_rejected atol (1 / 2) c h0 2 (Mat.identity 4) [0, 1] id4_wf rfl id4_unitary hcpos
+    (by norm_num) (by simp only [List.length_cons, List.length_nil]; norm_num)
+    (by
+      rw [rtol_real]
+      rcases hc with rfl | rfl | rfl
+      · rw [max_eq_left (by norm_num), abs_of_pos (by norm_num)]; norm_num; linarith
+      · rw [max_eq_right (by norm_num), abs_of_neg (by norm_num)]; norm_num; linarith
+      · rw [max_eq_left (by norm_num), abs_of_pos (by norm_num)]; norm_num; linarith)
+  exact ⟨this.1, this.2.2.1, this.2.2.2.2.1⟩
+
+/-- a purely imaginary factor: `MatrixGate(3i·I₄)` is rejected as well (general complex scalars: `…_rejected_big`) -/
+example (atol : ℝ) (h0 : 0 < atol) (h1 : atol ≤ 1 / 5) :
+    checkGateReplacement atol (.matrix (Mat.identity 4) [0, 1]) [.matrix (Mat.smul ⟨0, 3⟩ (Mat.identity 4)) [0, 1]]
+      = some .value := by
+  have hn : ‖(⟨0, 3⟩ : Cx ℝ).toC‖ = 3 := by
+    have : (⟨0, 3⟩ : Cx ℝ).toC = ((3 : ℝ) : ℂ) * Complex.I := by apply Complex.ext <;> simp
+    rw [this, norm_mul, Complex.norm_I, Complex.norm_real]; norm_num
+  refine (scalar_multiple_rejected_big atol (1 / 2) h0 2 (Mat.identity 4) [0, 1] ⟨0, 3⟩ id4_wf rfl (by norm_num)
+    (matrix_gate_big 2 _ _ id4_wf id4_unitary (1 / 2)
+      (by simp only [List.length_cons, List.length_nil]; norm_num)) ?_ ?_).1
+  · rw [hn, rtol_real]; norm_num; linarith
+  · rw [hn, rtol_real]; norm_num; linarith
+
+/-- the accepted side stays non-vacuous: the factor `c = 1` (the gate itself) is accepted -/
 example (atol : ℝ) (h0 : 0 < atol) (h1 : atol ≤ 1 / 2) :
-    checkGateReplacement atol (.matrix (Mat.identity 4) [0, 1]) [.matrix (Mat.smul ⟨2, 0⟩ (Mat.identity 4)) [0, 1]] = none ∧
-    ∀ z : ℂ, ‖z‖ = 1 → ∀ o,
-      1 ≤ ‖circOp 2 [.gate (.matrix (Mat.smul ⟨2, 0⟩ (Mat.identity 4)) [0, 1]) none] o
-            - z • circOp 2 [.gate (.matrix (Mat.identity 4) [0, 1]) none] o‖ := by
-  have := nonunitary_accepted atol h0 2 (Mat.identity 4) [0, 1]
-    ⟨by simp [Gate.operands], by
-      intro q hq; simp only [Gate.operands, List.mem_cons, List.not_mem_nil, or_false] at hq
-      rcases hq with rfl | rfl <;> omega⟩ rfl
-    (by
-      show (Mat.identity 4 : Mat ℝ).toMatrixOn 4 ∈ Matrix.unitaryGroup (Fin 4) ℂ
-      rw [Mat.toMatrixOn_identity]
-      exact one_mem _)
-    (by
-      have : atol ^ 2 ≤ 1 / 4 := by nlinarith
-      simp only [List.length_cons, List.length_nil]
-      norm_num
-      linarith)
-  exact ⟨this.1, this.2.2.2⟩
+    checkGateReplacement atol (.matrix (Mat.identity 4) [0, 1]) [.matrix (Mat.identity 4) [0, 1]] = none := by
+  apply checkGateReplacement_accepts_exact atol h0 2 _ _ id4_wf rfl
+    (by intro r hr; simp only [List.mem_singleton] at hr; subst hr; rfl)
+    (by intro r hr q hq; simp only [List.mem_singleton] at hr; subst hr; exact hq) 1 norm_one
+    (by simp [gateStmts])
+  exact matrix_gate_big 2 _ _ id4_wf id4_unitary atol (by
+    simp only [List.length_cons, List.length_nil]
+    have : atol ^ 2 ≤ 1 / 4 := by nlinarith
+    norm_num
+    linarith)
 
 end DBand
 end OSq
@@ -452,5 +615,8 @@ end OSq
 #print axioms OSq.DBand.shift_accepted
 #print axioms OSq.DBand.shift_not_exact
 #print axioms OSq.DBand.ex_shift_band
-#print axioms OSq.DBand.equivPhase_accepts_scalar
-#print axioms OSq.DBand.nonunitary_accepted
+#print axioms OSq.DBand.ex_shift_band_nohyp
+#print axioms OSq.DBand.equivPhase_rejects_scalar
+#print axioms OSq.DBand.scalar_multiple_rejected_big
+#print axioms OSq.DBand.scalar_multiple_rejected
+#print axioms OSq.DBand.scalar_multiple_rejected_id4
